@@ -211,6 +211,10 @@ pub fn main(args: &[String]) -> i32 {
             } else {
                 store.insert_with_timestamp(&key, &val, ts_choice)
             };
+            if ts_choice.is_none() && matches!(res, Err(feoxdb::FeoxError::OlderTimestamp)) {
+                // C12: an automatically versioned write is never rejected as older
+                obs::api("autorej", &key, kid as u64, 0, 0);
+            }
             let info = match res {
                 Ok(_) => {
                     let r = store.verif_record(&key).expect("record after insert");
@@ -604,6 +608,7 @@ fn emit_trace(
                 events.push(json!({"e": e.kind, "id": flush_pos.get(&e.a).copied().unwrap_or(0), "ok": f.ok, "snap": snap}));
             }
             "reads" => events.push(json!({"e": "reads", "bad": e.a})),
+            "autorej" => events.push(json!({"e": "autorej", "k": e.a})),
             "fault" => events.push(json!({"e": "fault", "io": e.a, "mode": e.b})),
             "vtick" => {
                 now = e.a;
